@@ -20,7 +20,7 @@
 From Coq Require Import Ascii String List Bool ZArith QArith Qcanon Lia.
 From SVP Require Import Base.Num Base.Cplx Model.Parse.
 Import ListNotations.
-Open Scope char_scope.
+Local Open Scope char_scope.
 
 (* ------------------------------------------------------------------ *)
 (* character classes                                                   *)
@@ -188,7 +188,7 @@ Definition texts (s : string) : list string :=
                 | LCmd a => String a EmptyString
                 | LNum x => string_of_list_ascii x end)
       (tokenize (list_ascii_of_string s)).
-Open Scope string_scope.
+Local Open Scope string_scope.
 
 Example lex_ex01 : texts "1.2.3" = ["1.2"; ".3"].            Proof. vm_compute. reflexivity. Qed.
 Example lex_ex02 : texts "-.5-.5" = ["-.5"; "-.5"].          Proof. vm_compute. reflexivity. Qed.
